@@ -412,7 +412,10 @@ func (sc *C12Scenario) Execute(t *testing.T) *core.Outcome {
 				// published while SubscribeWithReplay was running: lost for good only if a later live delivery moved the cursor past it
 				laterLive := false
 				for _, d := range byInc[pubInc[ev]] {
-					if posOfEv[d.Ev] > p {
+					// (the live delivery of a later event whose own append failed moves the cursor just the same:
+					// the subscription saves the bus's last persisted offset after every live delivery)
+					_, persisted := posOfEv[d.Ev]
+					if posOfEv[d.Ev] > p || (!persisted && pubInc[d.Ev] == pubInc[ev] && d.Ev > ev) {
 						laterLive = true
 					}
 				}
